@@ -668,6 +668,91 @@ def rule_r22(text, rules):
         text = text[:st[r].start] + new + text[st[mc + 4].end:]
         rules.append("R22")
 
+def rule_r24(text, rules):
+    """RECV.into_iter().map(|X| E).collect::<Result<_, _>>()?  ->  { let mut __rK = Vec::new(); for X in RECV { __rK.push((E)?); } __rK }
+    and  RECV.into_iter().collect::<Result<_, _>>()?           ->  { let mut __rK = Vec::new(); for __x in RECV { __rK.push(__x?); } __rK }
+    (`for X in RECV` IS `for X in IntoIterator::into_iter(RECV)`)
+    (collecting an iterator of Results into Result<Vec<_>, _> stops at the first error and returns it; the `?` behind it then leaves the
+    function with that error - exactly what pushing `(E)?` item by item does.  RECV a path of identifiers, X one identifier; a `?`
+    inside E left the closure with an Err that the collect handed on to the outer `?`: it now leaves the function directly, with the
+    same error up to one more identity From conversion.)  The result is a Vec: any other target is rejected by the type checker."""
+    k = 0
+    pat_tail = [".", "collect", "::", "<", "Result", "<", "_", ",", "_", ">", ">", "(", ")", "?"]
+    while True:
+        toks, st = _sig_with_index(text)
+        hit = None
+        for i in range(len(st) - 8):
+            if [y.text for y in st[i:i + 4]] != [".", "into_iter", "(", ")"]: continue
+            r = i - 1
+            if not (st[r].kind == "ident"): continue
+            while r - 2 >= 0 and st[r - 1].text == "." and st[r - 2].kind == "ident": r -= 2
+            if r - 1 >= 0 and st[r - 1].text in (".", "::", ")", "]", "?"): continue
+            j = i + 4
+            var = None; E = None
+            if [y.text for y in st[j:j + 3]] == [".", "map", "("] and st[j + 3].text == "|" and st[j + 4].kind == "ident" and st[j + 5].text == "|":
+                mo = j + 2; mc = match_close(st, mo)
+                var = st[j + 4].text
+                E = text[st[j + 6].start:st[mc - 1].end]
+                if any(y.kind == "ident" and y.text == "return" for y in st[j + 6:mc]):
+                    raise ExtractError("unsupported: `return` inside a map(..).collect::<Result<..>>() closure")
+                j = mc + 1
+            tail = [y.text for y in st[j:j + len(pat_tail)]]
+            # the lexer may split `>>` or keep it as one token
+            flat = "".join(tail)
+            want = "".join(pat_tail)
+            n_tail = None
+            for n in range(8, len(pat_tail) + 1):
+                if "".join(y.text for y in st[j:j + n]) == want: n_tail = n; break
+            if n_tail is None: continue
+            hit = (r, i, j, n_tail, var, E); break
+        if hit is None: return text
+        r, i, j, n_tail, var, E = hit
+        k += 1
+        recv = text[st[r].start:st[i - 1].end]
+        if var is None:
+            new = "{ let mut __r%d = Vec::new(); for __x%d in %s { __r%d.push(__x%d?); } __r%d }" % (k, k, recv, k, k, k)
+        else:
+            new = "{ let mut __r%d = Vec::new(); for %s in %s { __r%d.push((%s)?); } __r%d }" % (k, var, recv, k, E, k)
+        text = text[:st[r].start] + new + text[st[j + n_tail - 1].end:]
+        rules.append("R24")
+
+def rule_r25(text, rules):
+    """RECV.extend(SRC.iter().map(|X| E));  ->  for X in SRC.iter() { RECV.push(E); }
+    (Vec::extend pushes the items of the iterator in order; RECV and SRC paths of identifiers, X one identifier, a whole statement;
+    refused if E contains `return` / `?`)"""
+    while True:
+        toks, st = _sig_with_index(text)
+        hit = None
+        for i in range(len(st) - 14):
+            if [y.text for y in st[i:i + 3]] != [".", "extend", "("]: continue
+            r = i - 1
+            if not (st[r].kind == "ident"): continue
+            while r - 2 >= 0 and st[r - 1].text == "." and st[r - 2].kind == "ident": r -= 2
+            if not _stmt_start(st, r): continue
+            eo = i + 2; ec = match_close(st, eo)
+            if st[ec + 1].text != ";": continue
+            # inside: SRC . iter ( ) . map ( | X | E )
+            j = eo + 1
+            if not (st[j].kind == "ident"): continue
+            while st[j + 1].text == "." and st[j + 2].kind == "ident" and st[j + 2].text != "iter": j += 2
+            if [y.text for y in st[j + 1:j + 8]] != [".", "iter", "(", ")", ".", "map", "("]: continue
+            mo = j + 7; mc = match_close(st, mo)
+            if mc + 1 != ec: continue
+            if not (st[mo + 1].text == "|" and st[mo + 2].kind == "ident" and st[mo + 3].text == "|"): continue
+            body = st[mo + 4:mc]
+            if any((y.kind == "ident" and y.text == "return") or (y.kind == "punct" and y.text == "?") for y in body):
+                raise ExtractError("unsupported: `return` / `?` inside an extend(..map(..)) closure")
+            hit = (r, i, eo, j, mo, mc, ec); break
+        if hit is None: return text
+        r, i, eo, j, mo, mc, ec = hit
+        recv = text[st[r].start:st[i - 1].end]
+        src = text[st[eo + 1].start:st[j].end]
+        var = st[mo + 2].text
+        E = text[st[mo + 4].start:st[mc - 1].end]
+        new = "for %s in %s.iter() { %s.push(%s); }" % (var, src, recv, E)
+        text = text[:st[r].start] + new + text[st[ec + 1].end:]
+        rules.append("R25")
+
 def rule_r18(text, rules, specs):
     """for PAT in E { B }  ->  { let mut IT = INTO(E); loop { match NEXT(&mut IT) { None => { break; } Some(PAT) => { B } } } }
     - the definition of `for` in the Rust reference - for iterators that have no Verus specification (wasmparser's section
@@ -1044,6 +1129,8 @@ def extract_item(path, selector, opts, directives, findings_open):
         text = rule_r4(text, rules)
         text = rule_r17(text, rules)
         text = rule_r22(text, rules)
+        text = rule_r24(text, rules)
+        text = rule_r25(text, rules)
         if directives.get("fornext") and it.kind == "fn":
             text = rule_r18(text, rules, directives["fornext"])
         if "r3" in opts:
